@@ -23,6 +23,8 @@ class Shadow:
         self.tcur = 100
         self.open = False
         self.ro = False
+        self.bk = {}            # backup name -> True while the source was only appended to since
+        self.bkn = 0
 
 
 def hexbytes(rng, n):
@@ -153,6 +155,7 @@ def gen_history(rng, prof, probes):
             ops.append(draw_pub(rng, prof, sh))
             note('pub')
         elif kind in ('del', 'delm'):
+            sh.bk = {n: False for n in sh.bk}
             offs, cls = draw_offsets(rng, sh, prof.get('delete_class'))
             if rng.random() < 0.05:
                 offs = []
@@ -163,16 +166,30 @@ def gen_history(rng, prof, probes):
                 apply_delete(sh, offs)
             note('%s:%s' % (kind, cls))
         elif kind == 'trim':
+            sh.bk = {n: False for n in sh.bk}
             which = rng.choice(prof.get('trims', ['trimo', 'trimc', 'trims', 'trima']))
             ops.extend(draw_trim(rng, sh, which))
             note(which)
         elif kind == 'compact':
+            sh.bk = {n: False for n in sh.bk}
             which = rng.choice(['cupd', 'cdel', 'cupd', 'cdel', 'c1upd', 'c1del'])
             t = rng.randrange(sh.tcur - 12, sh.tcur + 3)
             ops.append('fupd %d' % t if 'upd' in which else 'fdel %d' % t)
             ops.append('%s %d' % (which, t))
             sh.live = None or sh.live   # shadow not updated: compaction results depend on content
             note(which)
+        elif kind == 'backup':
+            clean = [n for n, ok in sh.bk.items() if ok]
+            if clean and rng.random() < 0.6:
+                name = rng.choice(clean)
+                note('backup_repeat')
+            else:
+                sh.bkn += 1
+                name = 'b%d' % sh.bkn
+                note('backup_fresh')
+            ops.append('backup ' + name)
+            sh.bk[name] = True
+            ops.append('bkobs %s %d' % (name, rng.choice([0, 0, 1])))
         elif kind == 'gc':
             ops.append('gc')
             note('gc')
@@ -181,6 +198,7 @@ def gen_history(rng, prof, probes):
         elif kind == 'probe':
             pass
         elif kind == 'reopen':
+            sh.bk = {n: False for n in sh.bk}
             if sh.open:
                 ops.append('close')
                 sh.open = False
@@ -209,9 +227,12 @@ def between_sessions(rng, prof, sh, note):
             note('rmindex_some')
     if len(prof.get('versions', [2])) > 1 and rng.random() < 0.3:
         ops.append('migrate %d' % rng.choice([1, 2]))
+        ops.append('files')
         note('migrate')
         if rng.random() < 0.3:
-            ops.append(ops[-1])
+            ops.append(ops[-2])
+            ops.append('files')
+            note('migrate_twice')
     if rng.random() < prof.get('p_recoverdir', 0.1) and (prof.get('time_mode', 'mono') != 'rand' or not prof['times']):
         ops.append('recoverdir')
     return ops
